@@ -12,6 +12,7 @@
 -/
 import OrxPar.Lemmas.Terminals
 import OrxPar.Lemmas.Run
+import OrxPar.Lemmas.PartialSrc
 namespace OrxPar
 
 /-- **C01.** all three collect flavours, every target kind -/
@@ -59,6 +60,21 @@ theorem C01_collect_all_schedules (s : Src) (ops : List Op) (cs : List Nat) (hne
         (some (Par.build s ops).1.src.items.length) (fun _ => false) cs) sched))
       (.collectInto t []) = .vals (seqVals s.items ops) :=
   C01_collect s ops _ (Or.inr (C01_every_schedule _ cs hne hpos sched hd)) t
+
+/-- **known finding F (partially consumed concurrent iterator).** if the iterator handed to
+    `into_par()` has already yielded `b > 0` elements, `map_col` writes element `i` of the
+    remainder at `offset + b + i` while the bag was sized for the remainder: whatever the order of
+    the writes, finishing the bag fails (the call panics) as soon as the remainder is non-empty;
+    with `b = 0` the same writes are accepted and give `pre ++ xs.map m` -/
+theorem C01_partial_source_finding (m : Val → Val) (pre xs : List Val) (b : Nat) (hb : 0 < b)
+    (hne : xs ≠ []) (writes : List (Nat × Val))
+    (hw : writes.Perm (mapColWritesFrom m pre.length b xs)) : K.bagFinish pre writes = none :=
+  mapCol_partial_source_panics m pre xs b hb hne writes hw
+
+theorem C01_fresh_source_ok (m : Val → Val) (pre xs : List Val) (writes : List (Nat × Val))
+    (hw : writes.Perm (mapColWritesFrom m pre.length 0 xs)) :
+    K.bagFinish pre writes = some (pre ++ xs.map m) :=
+  mapCol_fresh_source_ok m pre xs writes hw
 
 /-- non-vacuity: three workers, the one spawned second holds chunk 0 and the last chunk, the third
     got nothing; chunk sizes 2, 1, 5 -/
